@@ -3,6 +3,7 @@
    validation); the tie itself is the per-program comparison done by tools/props/c02.py. *)
 From Coq Require Import String.
 From Aelys Require Import Base.Tactics Model.Lang Model.Eval Proofs.EvalProofs.
+From Aelys Require Import Model.RegPool Proofs.RegPoolProofs.
 
 (* integer arithmetic is Z arithmetic reduced to the 48-bit two's-complement range *)
 Theorem C02_int_ops_wrap48 : forall a b : Z,
@@ -77,4 +78,53 @@ Proof. exact set_cell_other. Qed.
 Example C02_nonvacuous :
   range_list 10 2 8 false 3 = [2; 5]%Z /\ range_list 10 10 0 true (-5) = [10; 5; 0]%Z
   /\ range_list 10 10 1 true (-5) = [10; 5]%Z.
+Proof. vm_compute. repeat split; reflexivity. Qed.
+
+(* ---- the compiler's register pool and the callee's register window --------------------------
+   The VM puts the callee's frame right after the call's window, so a call overwrites every
+   caller register above the window (Model/RegPool.v).  On a pool without holes: *)
+
+(* a freshly allocated register is the top: a call whose destination it is (CallGlobal /
+   CallUpval with the arguments allocated after it) has nothing in use above it *)
+Theorem C02_fresh_register_is_on_top : forall p r p',
+  compact p -> alloc p = Some (r, p') ->
+  r = top p /\ compact p' /\ top p' = S r /\ window_clear p' r.
+Proof. exact alloc_compact. Qed.
+
+(* the window alloc_consecutive_registers_for_call finds for a callee and its nargs arguments
+   starts at the top, and once marked nothing is in use above it *)
+Theorem C02_call_window_is_on_top : forall p nargs s,
+  compact p -> first_fit p (S nargs) = Some s ->
+  s = top p /\ window_clear (mark p s (S nargs)) (s + nargs) /\ compact (mark p s (S nargs)).
+Proof.
+  intros p n s C H. destruct (first_fit_compact p n s C H) as (E & _).
+  destruct (window_compact p n s C H) as (W & C' & _). auto.
+Qed.
+
+(* every sequence of the pool operations the compiler performs - allocate, release the top
+   register, release dead locals (as repaired: from the top only), take a call window - keeps
+   the pool free of holes, from the empty pool a function starts with *)
+Theorem C02_pool_operations_keep_it_compact : forall (ops : list pop) n,
+  compact (fold_left pstep ops (repeat false n)).
+Proof. intros ops n. apply run_compact. apply compact_empty. Qed.
+
+(* release of dead locals frees nothing that is not dead *)
+Theorem C02_free_dead_frees_only_dead : forall fuel dead p r,
+  used p r = true -> used (free_dead_top fuel dead p) r = false -> dead r = true.
+Proof. exact free_dead_top_only_dead. Qed.
+
+(* and a hole is exactly what goes wrong: the register allocated next lies below a register in
+   use, which the callee of a call made into it would overwrite (KF-C02-11) *)
+Theorem C02_hole_makes_next_call_unsafe : forall p r p',
+  alloc p = Some (r, p') -> r < top p -> ~ window_clear p' r.
+Proof. exact hole_alloc_below_live. Qed.
+
+Example C02_old_free_dead_made_a_hole :
+  let p := [true; true; true; false] in
+  let dead := fun r : nat => Nat.eqb r 0%nat in
+  (compactb p = true) /\
+  (free_dead_anywhere dead p 0%nat = [false; true; true; false]) /\
+  (alloc (free_dead_anywhere dead p 0%nat) = Some (0%nat, [true; true; true; false])) /\
+  (free_dead_top 4 dead p = p) /\
+  (alloc (free_dead_top 4 dead p) = Some (3%nat, [true; true; true; true])).
 Proof. vm_compute. repeat split; reflexivity. Qed.
